@@ -612,7 +612,7 @@ var opTable = []struct {
 	w    int
 }{
 	{"create", 24}, {"revoke-existing", 12}, {"revoke-unknown", 6}, {"revoke-admin", 3}, {"revoke-revoked", 5},
-	{"http-auth", 12}, {"ws-auth", 10}, {"restart", 4}, {"create-as-user", 2}, {"revoke-as-user", 3}, {"revoke-commit-fails", 3},
+	{"http-auth", 12}, {"ws-auth", 10}, {"restart", 4}, {"create-as-user", 2}, {"revoke-as-user", 3}, {"revoke-commit-fails", 3}, {"create-insert-fails", 2}, {"revoke-delete-fails", 2},
 }
 
 // lockEvery: one sequence in lockEvery additionally revokes one token while a reader holds a lock (a busy timeout each)
@@ -747,6 +747,38 @@ func (s *seq) run(rng *rand.Rand, n int) {
 			_, _ = e.st.DB.Exec(`DELETE FROM verif_tokref`)
 			s.r.Count("revokes_with_refused_commit", 1)
 			s.r.Count(fmt.Sprintf("revokes_with_refused_commit_status_%dxx", code/100), 1)
+		case "create-insert-fails":
+			// the INSERT of the new token aborts inside SQLite: a token handed out nevertheless would never authenticate
+			s.op(kind, "create while the database refuses the INSERT")
+			if _, err := e.st.DB.Exec(`CREATE TRIGGER IF NOT EXISTS verif_tok_ins BEFORE INSERT ON tokens BEGIN SELECT RAISE(ABORT, 'verif: injected insert failure'); END`); err != nil {
+				s.r.Count("sql_fault_not_installed", 1)
+				continue
+			}
+			before := len(m.issued)
+			ok := s.create(rig.AdminToken, false)
+			_, _ = e.st.DB.Exec(`DROP TRIGGER IF EXISTS verif_tok_ins`)
+			s.r.Count("creates_with_refused_insert", 1)
+			if len(m.issued) > before {
+				s.r.Count("creates_with_refused_insert_answered_2xx", 1)
+			}
+			if !ok {
+				return
+			}
+		case "revoke-delete-fails":
+			t, ti, ok := m.pick(rng, true)
+			if !ok {
+				continue
+			}
+			s.op(kind, "revoke #%d while the database refuses the DELETE", ti)
+			s.subj = t
+			if _, err := e.st.DB.Exec(`CREATE TRIGGER IF NOT EXISTS verif_tok_del BEFORE DELETE ON tokens BEGIN SELECT RAISE(ABORT, 'verif: injected delete failure'); END`); err != nil {
+				s.r.Count("sql_fault_not_installed", 1)
+				continue
+			}
+			code := s.revoke(t, rig.AdminToken)
+			_, _ = e.st.DB.Exec(`DROP TRIGGER IF EXISTS verif_tok_del`)
+			s.r.Count("revokes_with_refused_delete", 1)
+			s.r.Count(fmt.Sprintf("revokes_with_refused_delete_status_%dxx", code/100), 1)
 		case "revoke-revoked":
 			t, ti, ok := m.pick(rng, false)
 			if !ok {
@@ -864,7 +896,7 @@ func (s *seq) run(rng *rand.Rand, n int) {
 }
 
 func body(r *ev.Run) {
-	r.Rule("seeded operation sequences of length 20..200 over {create (admin), create with a user token, revoke existing / already revoked / never-issued (random, near-miss and SQL-wildcard values) / the admin token itself, revoke with a user token (incl. self-revocation), revoke while SQLite refuses the COMMIT of the deletion (deferred foreign-key reference) or while a second connection holds a read lock, authenticate over TCP, websocket connect with valid / revoked / never-issued / empty / admin token, restart}; the set model follows the API's own answers (2xx create = issued, 2xx revoke = revoked). After EVERY operation every token ever issued, the admin token and the never-issued targets are authenticated on GET /api/v1/access (status, own value, isAdmin) and a rotating sample on GET /api/v1/chain/tip/longest; websocket handshakes are sampled. evaluations = sequences; distinct = distinct operation-kind strings; non-trivial = sequences with at least one create, one accepted revocation of an existing token and one restart or websocket probe.")
+	r.Rule("seeded operation sequences of length 20..200 over {create (admin), create with a user token, revoke existing / already revoked / never-issued (random, near-miss and SQL-wildcard values) / the admin token itself, revoke with a user token (incl. self-revocation), revoke while SQLite refuses the COMMIT of the deletion (deferred foreign-key reference), aborts the DELETE statement (trigger) or while a second connection holds a read lock, create while SQLite aborts the INSERT (trigger), authenticate over TCP, websocket connect with valid / revoked / never-issued / empty / admin token, restart}; the set model follows the API's own answers (2xx create = issued, 2xx revoke = revoked). After EVERY operation every token ever issued, the admin token and the never-issued targets are authenticated on GET /api/v1/access (status, own value, isAdmin) and a rotating sample on GET /api/v1/chain/tip/longest; websocket handshakes are sampled. evaluations = sequences; distinct = distinct operation-kind strings; non-trivial = sequences with at least one create, one accepted revocation of an existing token and one restart or websocket probe.")
 	r.Assume(
 		"authentication is enabled (use_auth=true); SQLite token repository only",
 		"restart = stop listeners, close the handle, database.Init on the same file, new services/engine/websocket node (no process kill: that is C05's business)",
